@@ -46,7 +46,7 @@ def budget(tier):
 @st.composite
 def _case(draw, tier):
     weak = draw(st.sampled_from([False, False, False, False, False, True]))
-    c = draw(brewlib.cv_case(tier, estimators=("Lin", "Cubic", "LinBoth", "LinTied", "LinOffset", "LinTiny"), fdrs=FDRS, weak=weak))
+    c = draw(brewlib.cv_case(tier, estimators=("Lin", "Cubic", "LinBoth", "LinTied", "LinInt", "LinOffset", "LinTiny"), fdrs=FDRS, weak=weak))
     c["cap_kind"] = draw(st.sampled_from(["none", "none", "active"]))
     if weak:
         c["test_fdr"] = draw(st.sampled_from([0.0731, 0.1279]))
